@@ -16,7 +16,26 @@ fn drive<I, T>(
     p: usize,
     mode: u8,
     cloner: Option<&dyn Fn(&I) -> I>,
-) -> Vec<(u32, u16)>
+) -> (Vec<(u32, u16)>, bool)
+where
+    I: ExactSizeIterator<Item = T>,
+{
+    let (out, complete) = drive_inner(what, it, idf, total, p, mode, cloner);
+    (out, complete)
+}
+
+/// Number of ways `drive` can finish an iterator (modes 0..MODES).
+pub const MODES: u8 = 9;
+
+fn drive_inner<I, T>(
+    what: &str,
+    mut it: I,
+    idf: &dyn Fn(&T) -> (u32, u16),
+    total: usize,
+    p: usize,
+    mode: u8,
+    cloner: Option<&dyn Fn(&I) -> I>,
+) -> (Vec<(u32, u16)>, bool)
 where
     I: ExactSizeIterator<Item = T>,
 {
@@ -38,7 +57,7 @@ where
             }
             None => {
                 crate::viol!("{}: next() returned None after {} of {} elements", what, step, total);
-                return out;
+                return (out, true);
             }
         }
     }
@@ -85,13 +104,84 @@ where
                 crate::check!(cl.next().is_none() && it.next().is_none(), "{}: Some after exhaustion (clone mode)", what);
             }
         }
+        // Modes 4..: the provided Iterator methods an implementation may specialise. Each is held to its definition
+        // in terms of next(); what they skip is not observable, so these return a sub-multiset (complete = false).
+        4 => {
+            // nth(k) == k x next() discarded, then next()
+            let mut round = p;
+            loop {
+                let k = [0usize, 1, 2, 5, 0, 3, 17, 1][round % 8];
+                round += 1;
+                match it.nth(k) {
+                    Some(x) => {
+                        if remaining <= k {
+                            crate::viol!("{}: nth({}) returned an element with only {} remaining", what, k, remaining);
+                            return (out, false);
+                        }
+                        out.push(idf(&x));
+                        remaining -= k + 1;
+                        exact(&it, remaining, total - remaining);
+                    }
+                    None => {
+                        if remaining > k {
+                            crate::viol!("{}: nth({}) returned None with {} elements remaining (after a prefix of {})", what, k, remaining, total - remaining);
+                        }
+                        exact(&it, 0, total);
+                        crate::check!(it.next().is_none(), "{}: Some after nth() returned None", what);
+                        break;
+                    }
+                }
+            }
+            return (out, false);
+        }
+        5 => {
+            let n = it.count();
+            crate::check!(n == remaining, "{}: count() from prefix {} = {}, {} remain", what, p.min(total), n, remaining);
+            return (out, false);
+        }
+        6 => {
+            match it.last() {
+                Some(x) => {
+                    crate::check!(remaining > 0, "{}: last() returned an element of an exhausted iterator", what);
+                    out.push(idf(&x));
+                }
+                None => crate::check!(remaining == 0, "{}: last() returned None with {} elements remaining", what, remaining),
+            }
+            return (out, false);
+        }
+        7 => {
+            // skip(k) and step_by(s) are built on nth()
+            let k = [1usize, 2, 3, 16, 7][p % 5];
+            let s = [2usize, 3, 1, 5][p % 4];
+            let mut seen = 0usize;
+            for x in it.skip(k).step_by(s) {
+                out.push(idf(&x));
+                seen += 1;
+            }
+            let after_skip = remaining.saturating_sub(k);
+            let want = (after_skip + s - 1) / s;
+            crate::check!(seen == want, "{}: skip({}).step_by({}) from prefix {} yielded {} elements, expected {} of the {} remaining", what, k, s, p.min(total), seen, want, remaining);
+            return (out, false);
+        }
+        8 => {
+            // position/find/any walk the whole iterator when nothing matches
+            let mut visited = 0usize;
+            let pos = it.position(|_| {
+                visited += 1;
+                false
+            });
+            crate::check!(pos.is_none() && visited == remaining, "{}: position() visited {} elements, {} remain", what, visited, remaining);
+            exact(&it, 0, total);
+            crate::check!(it.next().is_none(), "{}: Some after position() walked to the end", what);
+            return (out, false);
+        }
         _ => {
             let mut step = out.len();
             while let Some(x) = it.next() {
                 out.push(idf(&x));
                 if remaining == 0 {
                     crate::viol!("{}: yields more than len() = {} elements", what, total);
-                    return out;
+                    return (out, true);
                 }
                 remaining -= 1;
                 step += 1;
@@ -105,11 +195,27 @@ where
             }
         }
     }
-    out
+    (out, true)
 }
 
-fn same_multiset(what: &str, mut got: Vec<(u32, u16)>, expect: &[(u32, u16)]) {
+fn same_multiset(what: &str, got: (Vec<(u32, u16)>, bool), expect: &[(u32, u16)]) {
+    let (mut got, complete) = got;
     got.sort();
+    if !complete {
+        // sub-multiset: every element yielded is stored, none more often than it is stored
+        let mut j = 0;
+        for g in &got {
+            while j < expect.len() && expect[j] < *g {
+                j += 1;
+            }
+            if j >= expect.len() || expect[j] != *g {
+                crate::viol!("{}: yielded {:?}, which is not stored (or more often than it is stored)", what, g);
+                return;
+            }
+            j += 1;
+        }
+        return;
+    }
     if got != expect {
         let missing: Vec<_> = expect.iter().filter(|x| !got.contains(x)).take(4).collect();
         let mut dup = got.clone();
@@ -148,7 +254,7 @@ fn map_case<K: Elem, V: Elem>(c: &mut Ctx, spec: &Spec, rng: &mut Rng) {
     drop(probe);
     let kid = |k: &K| (k.id(), k.gen());
     for p in prefixes(len, rng, c.thorough()) {
-        for mode in 0..4u8 {
+        for mode in 0..MODES {
             let which = rng.below(9);
             let name = ["iter", "iter_mut", "keys", "values", "values_mut", "into_iter", "into_keys", "into_values", "drain"][which as usize];
             let what = format!("HashMap<{},{}>::{} [{}] prefix {} mode {}", K::NAME, V::NAME, name, spec.describe(), p, mode);
@@ -209,7 +315,7 @@ fn set_case<T: Elem>(c: &mut Ctx, spec: &Spec, rng: &mut Rng) {
     let len = expect.len();
     drop(probe);
     for p in prefixes(len, rng, c.thorough()) {
-        for mode in 0..4u8 {
+        for mode in 0..MODES {
             let which = rng.below(3);
             let name = ["iter", "into_iter", "drain"][which as usize];
             let what = format!("HashSet<{}>::{} [{}] prefix {} mode {}", T::NAME, name, spec.describe(), p, mode);
@@ -243,7 +349,7 @@ fn table_case<E: Elem>(c: &mut Ctx, spec: &Spec, rng: &mut Rng) {
     let len = expect.len();
     drop(probe);
     for p in prefixes(len, rng, c.thorough()) {
-        for mode in 0..4u8 {
+        for mode in 0..MODES {
             let which = rng.below(4);
             let name = ["iter", "iter_mut", "into_iter", "drain"][which as usize];
             let what = format!("HashTable<{}>::{} [{}] prefix {} mode {}", E::NAME, name, spec.describe(), p, mode);
@@ -295,16 +401,16 @@ fn zst_table_case<ZT: Elem>(c: &mut Ctx, rng: &mut Rng) {
     };
     let len = n - removed;
     for p in [0, len / 2, len] {
-        for mode in 0..4u8 {
+        for mode in 0..MODES {
             c.evaluations += 1;
             c.sig_parts(&[60, mode as u64, (len > 16) as u64, p as u64 % 3]);
             let what = format!("HashTable<{}> n={} removed={} prefix {} mode {}", ZT::NAME, n, removed, p, mode);
             let t = mk();
             crate::check!(t.len() == len, "{}: len {} != {}", what, t.len(), len);
             let got = drive(&what, t.iter(), &|_x: &&ZT| (0, 0), len, p, mode, Some(&|i| i.clone()));
-            crate::check!(got.len() == len, "{}: iter yielded {} of {}", what, got.len(), len);
+            crate::check!(got.0.len() == len || !got.1, "{}: iter yielded {} of {}", what, got.0.len(), len);
             let got = drive(&what, t.into_iter(), &|_x: &ZT| (0, 0), len, p, mode, None);
-            crate::check!(got.len() == len, "{}: into_iter yielded {} of {}", what, got.len(), len);
+            crate::check!(got.0.len() == len || !got.1, "{}: into_iter yielded {} of {}", what, got.0.len(), len);
         }
     }
 }
